@@ -61,5 +61,5 @@ T3 == << [Tx(1, <<"A", "K">>, 6, 400, 5000000, 100000, SigK + 40000) EXCEPT !.st
              !.amult = [NoAm EXCEPT !.notary = 2]] >>
 S3 == Sx(1000, 30, [A |-> 12000000, K |-> 2000000000, DEPA |-> 60000000], {})
 B3 == << Bk("cver", "K", 2), Bk("cver", "K", 1), Bk("cver", "K", 3), Bk("cver", "K", 0), Bk("drain", "A", 6000000), Inc(<<3>>),
-         Bk("none", "", 0), Bk("withdraw", "DEPA", 0) >>
+         Bk("none", "", 0), Bk("withdraw", "DEPA", 0), Bk("afee", "nvb", 100000) >>
 =============================================================================
